@@ -1,5 +1,7 @@
 #![feature(allocator_api)]
 #![feature(pattern)]
+#![feature(slice_pattern)]
+#![feature(slice_concat_trait)]
 #![feature(slice_index_methods)]
 #![allow(unused_imports, unused_variables, dead_code, unused_mut, unused_parens, non_snake_case, unreachable_code, unused_braces)]
 use vstd::prelude::*;
